@@ -65,9 +65,18 @@ enum Ev {
     TimerExactThenWriteStalls,
     /// the application drops poll(), makes a publish that is refused locally (illegal property) and polls again
     CancelAndRefusedPublish,
+    /// the pending timer fires on time, the next flush (typically the PINGREQ's) stalls, the application
+    /// drops poll() at that point and polls again at once
+    TimerExactThenFlushStallsAndCancel,
+    /// the application drops poll(), publishes at QoS 2 and polls again
+    CancelAndPublish2,
+    /// PUBREC for the outstanding QoS 2 publish arrives now (the client answers with PUBREL)
+    PubRec,
+    /// PUBCOMP for the outstanding QoS 2 exchange arrives now
+    PubComp,
 }
 
-const EVENTS: [Ev; 20] = [
+const EVENTS: [Ev; 24] = [
     Ev::TimerExact,
     Ev::TimerLate,
     Ev::Inbound,
@@ -88,6 +97,10 @@ const EVENTS: [Ev; 20] = [
     Ev::PingRespAtDeadline,
     Ev::TimerExactThenWriteStalls,
     Ev::CancelAndRefusedPublish,
+    Ev::TimerExactThenFlushStallsAndCancel,
+    Ev::CancelAndPublish2,
+    Ev::PubRec,
+    Ev::PubComp,
 ];
 
 pub struct C10 {
@@ -123,6 +136,8 @@ struct Mon {
     stalled: bool,
     /// the write of the outstanding PINGREQ had stalled
     ping_stalled: bool,
+    /// outstanding QoS 2 publish: identifier and whether its PUBREC has been sent to the client
+    qos2_outstanding: Option<(u16, bool)>,
 }
 
 impl C10 {
@@ -170,6 +185,9 @@ impl C10 {
                     if let CPacket::Publish(pp) = &p {
                         if pp.qos == 1 {
                             mon.qos1_outstanding = pp.pid;
+                        }
+                        if pp.qos == 2 {
+                            mon.qos2_outstanding = pp.pid.map(|p| (p, false));
                         }
                     }
                     mon.last_tx = now;
@@ -224,6 +242,7 @@ impl Model for C10 {
                     ($($a:tt)*) => { if record { trace.push(format!($($a)*)); } };
                 }
                 let now_ms = || clock::now() / clock::TICKS_PER_MS;
+                let mut flush_cancel_armed = false;
                 'outer: loop {
                     let after: After = {
                         let mut fut = Box::pin(conn.poll());
@@ -243,6 +262,14 @@ impl Model for C10 {
                                     break;
                                 }
                                 Poll::Pending => {
+                                    if bench.sh.borrow().pending == Pend::Chosen && flush_cancel_armed {
+                                        // the flush stalled by TimerExactThenFlushStallsAndCancel: the application
+                                        // drops the future here and polls again
+                                        flush_cancel_armed = false;
+                                        log!("the flush stalls; the application drops poll() and polls again at {} ms", now_ms());
+                                        res = After::Repoll;
+                                        break;
+                                    }
                                     if bench.sh.borrow().pending == Pend::Chosen {
                                         // the write stalled by TimerExactThenWriteStalls: three seconds pass
                                         clock::set(clock::now() + STALL_MS * clock::TICKS_PER_MS);
@@ -254,6 +281,8 @@ impl Model for C10 {
                                     }
                                     // blocked: nothing to read; a timer may be registered
                                     bench.sh.borrow_mut().stall_next_write = false;
+                                    bench.sh.borrow_mut().stall_next_flush = false;
+                                    flush_cancel_armed = false;
                                     if bench.sh.borrow().pending != Pend::ReadEmpty {
                                         panic!("machinery: poll pending without a blocked read");
                                     }
@@ -287,6 +316,15 @@ impl Model for C10 {
                                     let wake_ms = wake.map(|t| t / clock::TICKS_PER_MS);
                                     let mut na = false;
                                     match ev {
+                                        Ev::TimerExactThenFlushStallsAndCancel => match wake {
+                                            Some(t) if t > clock::now() => {
+                                                clock::set(t);
+                                                bench.sh.borrow_mut().stall_next_flush = true;
+                                                flush_cancel_armed = true;
+                                                log!("{:?}: clock -> {} ms, next flush will stall", ev, now_ms());
+                                            }
+                                            _ => na = true,
+                                        },
                                         Ev::TimerExactThenWriteStalls => match wake {
                                             Some(t) if t > clock::now() => {
                                                 clock::set(t);
@@ -378,6 +416,30 @@ impl Model for C10 {
                                             res = After::RefusedPub;
                                             break;
                                         }
+                                        Ev::CancelAndPublish2 => {
+                                            if mon.qos2_outstanding.is_some() {
+                                                na = true;
+                                            } else {
+                                                res = After::Pub(2);
+                                                break;
+                                            }
+                                        }
+                                        Ev::PubRec => match mon.qos2_outstanding {
+                                            Some((pid, false)) => {
+                                                bench.push(id, &[0x50, 0x02, (pid >> 8) as u8, pid as u8]);
+                                                mon.qos2_outstanding = Some((pid, true));
+                                                log!("PUBREC at {} ms", now_ms());
+                                            }
+                                            _ => na = true,
+                                        },
+                                        Ev::PubComp => match mon.qos2_outstanding {
+                                            Some((pid, true)) => {
+                                                bench.push(id, &[0x70, 0x02, (pid >> 8) as u8, pid as u8]);
+                                                mon.qos2_outstanding = None;
+                                                log!("PUBCOMP at {} ms", now_ms());
+                                            }
+                                            _ => na = true,
+                                        },
                                         Ev::CancelAndRepoll => {
                                             res = After::Repoll;
                                             break;
@@ -435,11 +497,12 @@ impl Model for C10 {
                         res
                     };
                     bench.sh.borrow_mut().stall_next_write = false;
+                    bench.sh.borrow_mut().stall_next_flush = false;
                     match after {
                         After::Again => {
                             self.account_writes(bench, id, &mut seen, &mut mon, &mut viol, true);
                             // a consumed PINGRESP clears the outstanding ping
-                            if mon.ping_at.is_some() && bench.inbound_left(id) == 0 && conn.session().verif_runtime().ping_timeout_ticks.is_none() {
+                            if mon.ping_at.is_some() && mon.resp_pushed && bench.inbound_left(id) == 0 && conn.session().verif_runtime().ping_timeout_ticks.is_none() {
                                 log!("ping answered (deadline cleared) at {} ms", now_ms());
                                 mon.ping_at = None;
                                 mon.resp_pushed = false;
@@ -540,6 +603,7 @@ impl Model for C10 {
                 mon.ping_stalled.hash(&mut h);
                 mon.late_ms.hash(&mut h);
                 mon.qos1_outstanding.is_some().hash(&mut h);
+                mon.qos2_outstanding.map(|q| q.1).hash(&mut h);
                 mon.dead.hash(&mut h);
                 clock::wake().map(|t| t.saturating_sub(clock::now())).hash(&mut h);
                 let key = if viol.is_empty() { h.finish128() } else { 0xBAD };
@@ -568,7 +632,11 @@ impl Model for C10 {
 }
 
 fn bench_publish(bench: &Bench, conn: &mut Connection<'_, '_, VirtualIo>, id: usize, q: u8) -> Result<(), Res> {
-    let fut = conn.publish(Publication::bytes("t", b"x").qos(if q == 0 { QoS::AtMostOnce } else { QoS::AtLeastOnce }));
+    let fut = conn.publish(Publication::bytes("t", b"x").qos(match q {
+        0 => QoS::AtMostOnce,
+        1 => QoS::AtLeastOnce,
+        _ => QoS::ExactlyOnce,
+    }));
     let mut fut = Box::pin(fut);
     let waker = noop_waker();
     let mut cx = Context::from_waker(&waker);
